@@ -377,6 +377,33 @@ def _produced_values(h):
     return out
 
 
+def _returns_operand_unchanged(h, tb):
+    """every return reachable from tb carries Ok(<an operand of the handler, moved unchanged>)"""
+    reach = h.reachable_from(tb)
+    seen = 0
+    for b in reach:
+        blk = h.blocks[b]
+        t = blk['term']
+        if t['k'] == 'call' and t['dest']['l'] == 0 and not t['dest']['p']:
+            return False
+        for st in blk['stmts']:
+            if st['k'] == 'assign' and st['pl']['l'] == 0 and not st['pl']['p']:
+                rv = st['rv']
+                if not (rv['k'] == 'agg' and rv.get('variant') == 'Ok' and len(rv.get('ops', [])) == 1):
+                    return False
+                x = op_local(rv['ops'][0])
+                hops = 0
+                while x is not None and not (1 <= x <= h.arg_count) and hops < 6:
+                    defs = [(pl, r) for _, _, pl, r in h.assigns() if pl['l'] == x and not pl['p']]
+                    if len(defs) != 1 or defs[0][1]['k'] != 'use' or op_place(defs[0][1]['op']) is None or op_place(defs[0][1]['op'])['p']:
+                        return False
+                    x = op_local(defs[0][1]['op']); hops += 1
+                if x is None or not (1 <= x <= h.arg_count) or h.locals[x]['ty'] != VALUE:
+                    return False
+                seen += 1
+    return seen > 0
+
+
 def _discr_gate(h, l, dl, names):
     for bb in sorted(h.live_blocks):
         t = h.blocks[bb]['term']
@@ -401,7 +428,11 @@ def _discr_gate(h, l, dl, names):
                 if h.blocks[tb]['term']['k'] == 'unreachable':
                     continue
                 okk, why = r_errd.returns_failure_only(h, tb)
+                if not okk and _returns_operand_unchanged(h, tb):
+                    continue       # `None => Ok(right)`: the arm hands an operand back as it is, nothing is read as another type
                 if not okk:
                     return 'variant match: the arm for %s does not fail (%s)' % (names[v] if v != 'otherwise' and v < len(names) else 'the other variants', why)
             return None
+    if not list(r_errd.uses_of_local(h, dl)):
+        return None        # a discriminant read whose result is never used (drop elaboration leaves these): not a consumption
     return 'discriminant read without a switch'
